@@ -238,6 +238,11 @@ class TU:
     # -- types ------------------------------------------------------------
     def ctype_of(self, node):
         t = node['type']
+        if 'desugaredQualType' not in t and t['qualType'].startswith('typeof (') and node.get('kind') == 'VarDecl' \
+                and node.get('init') == 'c' and node.get('inner'):
+            # `typeof (expr) *x = &(expr)` (Py_CLEAR in CPython 3.12): clang leaves the type sugared; a C initialiser
+            # of a pointer variable has the variable's type up to qualifiers
+            return self.ctype_of(node['inner'][-1])
         return self.parse_type(t.get('desugaredQualType') or t['qualType'], t['qualType'])
 
     def parse_type(self, q, alt=None):
